@@ -9,6 +9,8 @@ global size_of usize == 8;
 
 //@@ PDFERROR
 //@@ DEVIATIONS
+pub type ObjNr = u64;
+pub type GenNr = u64;
 
 // ---- env: opaque types ----
 #[verifier::external_body] pub struct SmallString { p: core::marker::PhantomData<()> }
@@ -125,6 +127,16 @@ fn arc_as_slice(a: &Arc<[u8]>) -> (r: &[u8]) ensures r@ == (**a)@ { &a }
 fn vec_truncate(v: &mut Vec<u8>, n: usize) ensures final(v)@ == (if n < old(v)@.len() { old(v)@.take(n as int) } else { old(v)@ }) { v.truncate(n) }
 
 //@@ INCLUDE rawimage/spec.rs
+
+// one stage of the chain (hypotheses in the ensures: no precondition)
+pub proof fn lemma_chain_step(fs: Seq<StreamFilter>, k: int, plain: Seq<u8>, cur: Seq<u8>)
+    ensures (0 <= k < fs.len() && chain(fs, plain) == chain(fs.skip(k), cur)) ==>
+        chain(fs, plain) == (match stage(fs[k], cur) { None => None, Some(x) => chain(fs.skip(k + 1), x) })
+{
+    if 0 <= k < fs.len() { assert(fs.skip(k).drop_first() =~= fs.skip(k + 1)); assert(fs.skip(k)[0] == fs[k]); }
+}
+pub proof fn lemma_chain_take_all(fs: Seq<StreamFilter>) ensures fs.take(fs.len() as int) =~= fs { }
+
 
 impl ImageXObject {
 //@@ ImageXObject::raw_image_data
